@@ -266,6 +266,12 @@ class TIMachine(FormatMachine):
     def new_obj(self):
         return self.mods().TreeInfo()
 
+    def prop_for_invalid(self, why):
+        # C16: "absolute paths are refused" - in a C16 run an absolute checksum path that gets written is reported there
+        if why.startswith("checksums.path") and self.cfg.get("focus") == "C16":
+            return "C16"
+        return "C06"
+
     def observe(self, obj):
         return observe_ti(obj)
 
